@@ -615,6 +615,43 @@ def scripted(big=False):
         ops += [O('close_file', f='f0'), O('close_file', f='f1')] + epilogue()
         add('S25-' + gname, img, ops, upc)
 
+    # S26: a clock that stands still (no real-time clock: every timestamp is the same): a file truncated and rewritten to the
+    # very same length at the very same time, an existing file whose times equal the clock's, rewritten in place
+    for gname in ['G16a', 'G32a']:
+        img = image_of(gname, tree='T0', nfree=6)
+        upc = img[1]
+        low = [c for c in range(2, 12) if c != (2 if img[0]['vols'][0]['fat32'] else None)]
+        img[0]['vols'][0]['root'] = [f('OLD.BIN', [low[0], low[1]], upc + 2, ct=100, mt=100), f('OLD2.BIN', [low[2]], 2, ct=100, mt=100)]
+        img[0]['vols'][0]['window'] = sorted(set(img[0]['vols'][0]['window'] + low[:3]))
+        ops = prologue() + [O('open_file', d='d0', name='SAME.BIN', mode='Create', as_='f0'), O('write', f='f0', n=upc + 1), O('close_file', f='f0'),
+                            O('open_file', d='d0', name='SAME.BIN', mode='Truncate', as_='f1'), O('write', f='f1', n=upc + 1), O('close_file', f='f1'),
+                            O('open_file', d='d0', name='SAME.BIN', mode='CreateOrTruncate', as_='f2'), O('write', f='f2', n=upc + 1), O('flush', f='f2'), O('close_file', f='f2'),
+                            O('open_file', d='d0', name='OLD.BIN', mode='Truncate', as_='f3'), O('write', f='f3', n=upc + 2), O('close_file', f='f3'),
+                            O('open_file', d='d0', name='OLD2.BIN', mode='Append', as_='f4'), O('seek_start', f='f4', u=0), O('write', f='f4', n=2), O('close_file', f='f4'),
+                            O('open_file', d='d0', name='OLD2.BIN', mode='Truncate', as_='f5'), O('close_file', f='f5'),
+                            O('open_file', d='d0', name='OLD2.BIN', mode='Append', as_='f6'), O('write', f='f6', n=2), O('flush', f='f6'), O('write', f='f6', n=1), O('close_file', f='f6'),
+                            O('mkdir', d='d0', name='D'), O('delete', d='d0', name='SAME.BIN'),
+                            O('open_file', d='d0', name='SAME.BIN', mode='Create', as_='f7'), O('write', f='f7', n=upc + 1), O('close_file', f='f7')] + epilogue()
+        add('S26-' + gname, img, ops, upc, clock='stalled')
+
+    # S27: the largest FAT16 volume: an existing directory and an existing file whose chains run THROUGH the clusters
+    # 0xFFF0 / 0xFFF1 (ordinary cluster numbers there, although they look like the reserved range of smaller volumes)
+    v, upc, bounds = geom('G16e', tree='T0', nfree=4)
+    spc = 16 * v['bpc']
+    # (the directory's first cluster has a free slot - a deleted entry - and its last names lie in the second cluster)
+    v['root'] = [d('DIRX', [10, 65520], [deleted('GONE.TXT', chain=[], units=0)] + [f('F%02d.TXT' % i) for i in range(spc)]), f('LOG.TXT', [11, 65521, 12], 2 * upc + 1)]
+    v['window'] = sorted(set(v['window'] + [10, 11, 12, 65520, 65521]))
+    last = 'F%02d.TXT' % (spc - 1)
+    ops = prologue() + [O('open_file', d='d0', name='LOG.TXT', mode='ReadOnly', as_='f1'), O('read', f='f1', n=3 * upc), O('close_file', f='f1'),
+                        O('open_file', d='d0', name='LOG.TXT', mode='Append', as_='f2'), O('write', f='f2', n=upc), O('seek_start', f='f2', u=upc + 1), O('write', f='f2', n=2),
+                        O('close_file', f='f2'),
+                        O('open_dir', d='d0', name='DIRX', as_='d1'), O('iterate', d='d1'), O('find', d='d1', name=last),
+                        O('open_file', d='d1', name=last, mode='Create', as_='f0'), O('close_file', f='f0'),
+                        O('open_file', d='d1', name='F%02d.TXT' % (spc - 2), mode='Create', as_='f0b'), O('mkdir', d='d1', name=last),
+                        O('open_file', d='d1', name='NEW.TXT', mode='Create', as_='f3'), O('write', f='f3', n=1), O('close_file', f='f3'), O('iterate', d='d1'),
+                        O('delete', d='d1', name=last), O('delete', d='d0', name='LOG.TXT'), O('close_dir', d='d1')] + epilogue()
+    add('S27-G16e', (dict(vols=[v]), upc, bounds), ops, upc)
+
     # S7: several volumes at once
     img = image_multi()
     upc = img[1]
